@@ -2,6 +2,7 @@ package c05
 
 import (
 	"fmt"
+	"os"
 	"path/filepath"
 	"testing"
 	"time"
@@ -27,8 +28,8 @@ const (
 func alpha() qcheck.Alpha {
 	return qcheck.Alpha{
 		IDs: []string{"a", "b", "c"}, Routes: []string{"/r1", "/r1", "/r2"}, Targets: []string{"t1", "t2", "t1"},
-		EnqPast: true, // includes an enqueue with next_run_at = now + 5 s
-		Deq: []qcheck.DeqSpec{{Route: "/r1", Batch: 1, TTL: ttl}, {Batch: 2, TTL: ttl}, {Route: "/r1", Target: "t2", Batch: 3, TTL: ttl}, {Batch: 3, TTL: ttl}, {Batch: 100, TTL: ttl}, {Route: "/r2", Batch: 101, TTL: ttl}},
+		EnqPast:  true, // includes an enqueue with next_run_at = now + 5 s
+		Deq:      []qcheck.DeqSpec{{Route: "/r1", Batch: 1, TTL: ttl}, {Batch: 2, TTL: ttl}, {Route: "/r1", Target: "t2", Batch: 3, TTL: ttl}, {Batch: 3, TTL: ttl}, {Batch: 100, TTL: ttl}, {Route: "/r2", Batch: 101, TTL: ttl}},
 		LeaseOps: []string{"nack", "nackd", "ext"}, MaxHandles: 2,
 		Operator: []string{"requeue", "cancel"},
 		Reopen:   true,
@@ -122,13 +123,19 @@ func alphaChurn() qcheck.Alpha {
 	return a
 }
 
-
 const shards = 6
 
 func TestCheck(t *testing.T) {
 	crashkit.MaybeChild()
 	r := runner.Start("C05", "model_checking")
 	if qcheck.HandleReplay(r, []qcheck.Spec{{Name: "c05", Extra: readiness}, {Name: "c05-churn", Extra: readiness}}, nil) {
+		r.Finish()
+	}
+	if runner.ReplayPath() != "" && replayInstant(r, t) {
+		r.Finish()
+	}
+	if os.Getenv("VERIF_C05_PART") == "instants" { // development switch
+		instantsPart(r, t)
 		r.Finish()
 	}
 	var jobs []job
@@ -198,6 +205,8 @@ func TestCheck(t *testing.T) {
 			}
 		}
 		crashkit.Enumerate(r, scens)
+		// ---- instants a client may write, up to the last RFC 3339 instant ------------------------------------
+		instantsPart(r, t)
 	}
 	r.Assume("SQLite: an expired lease is certainly released by a dequeue running >= 10 ms (the documented sweep granularity) after the expiry; earlier it may or may not be (the model follows the implementation there); the harness clock is monotonic")
 	r.Assume("crash part: process death only (see C01); Postgres not executed")
